@@ -13,6 +13,7 @@ import (
 
 func init() {
 	vfRegister(&vfProp{
+		noDouble:  true,
 		id:        "C07",
 		classes:   []string{"os", "os-alloc", "rs", "rs-alloc"},
 		gen:       c07Gen,
